@@ -32,6 +32,7 @@ package auth
 //@     granted(be, aclOfDoc(aclDoc(be, backend.ParseCopySource(copySource).0)), acc, isRoot, backend.ParseCopySource(copySource).0, backend.ParseCopySource(copySource).1, GetObjectAction, PermissionRead)
 
 //@ func VerifyObjectCopyAccess
+//@   requires {C20} [a-copy-source-is-not-empty] len(copySource) > 0
 //@   ensures {C03} [destination] err == nil ==> granted(be, opts.Acl, opts.Acc, opts.IsRoot, opts.Bucket, opts.Object, opts.Action, opts.AclPermission)
 //@   ensures {C03} [source] err == nil ==> copySourceGranted(be, opts.Acc, opts.IsRoot, copySource)
 //@   ensures {C15} [readonly-refuses-writes] opts.Readonly && (opts.AclPermission == PermissionWrite || opts.AclPermission == PermissionWriteAcp) ==> err != nil
